@@ -1008,3 +1008,86 @@ func TestD27b_OverflowGuardWithNegativeDistances(t *testing.T) {
 		}
 	}
 }
+
+// D29 (C07): name affinity was lost when the same-named input carries a subtype
+// and some (never executed) converter takes that name without subtype. The
+// cheapest path then runs supplied a/s -> requirement a -> type-only input of
+// the converter; the middle vertex has no value of its own and did not take
+// over the one before it, so the converter was fed whatever its type-only
+// input still held from another parameter's path (or nothing).
+func TestD29_NameAffinityThroughSubtypedInput(t *testing.T) {
+	target := argmapper.MustFunc(argmapper.NewFunc(func(in struct {
+		argmapper.Struct
+		A string
+		B string
+	}) string {
+		return in.A + "," + in.B
+	}))
+	for i := 0; i < 300; i++ {
+		res, p := call(target,
+			argmapper.NamedSubtype("a", 1, "s"),
+			argmapper.Named("b", 2),
+			argmapper.Converter(func(i int) string { return fmt.Sprint(i) }),
+			// never executed: it only makes the requirement "a int" exist
+			argmapper.Converter(func(in struct {
+				argmapper.Struct
+				A int
+			}) float64 {
+				return float64(in.A)
+			}),
+		)
+		if p != nil || res.Err() != nil {
+			t.Fatalf("iteration %d: %v %v", i, p, res.Err())
+		}
+		if got := res.Out(0).(string); got != "1,2" {
+			t.Fatalf("iteration %d: A,B = %q, want \"1,2\" (parameter a was converted from the value named b)", i, got)
+		}
+	}
+}
+
+// D30 (C08): a redefined function that declares a NAMED input of an interface
+// type could never be satisfied: its wrapper passed the value on with
+// Named(name, field.Interface()), i.e. under its dynamic type, and a named
+// value only matches a named requirement of exactly its type.
+type d30Reader interface{ Read() string }
+type d30Buf struct{ s string }
+
+func (b *d30Buf) Read() string { return b.s }
+
+type d30In struct {
+	argmapper.Struct
+	R d30Reader
+}
+type d30Out struct {
+	argmapper.Struct
+	R d30Reader
+}
+
+func TestD30_RedefinedFunctionWithNamedInterfaceInput(t *testing.T) {
+	orig := argmapper.MustFunc(argmapper.NewFunc(func(in d30In) string { return in.R.Read() }))
+	provider := func() d30Out { return d30Out{R: &d30Buf{"x"}} }
+	target := argmapper.MustFunc(argmapper.NewFunc(func(s string) string { return s + "!" }))
+	// control: with the original function as converter
+	res, p := call(target, argmapper.ConverterFunc(orig), argmapper.Converter(provider))
+	if p != nil || res.Err() != nil || res.Out(0).(string) != "x!" {
+		t.Fatalf("control: %v %v", p, res.Err())
+	}
+	red, err := orig.Redefine()
+	if err != nil {
+		t.Fatal(err)
+	}
+	vs := red.Input().Values()
+	if len(vs) != 1 || vs[0].Name != "r" || vs[0].Type != reflect.TypeOf((*d30Reader)(nil)).Elem() {
+		t.Fatalf("inputs of the redefined function: %v", vs)
+	}
+	res, p = call(target, argmapper.ConverterFunc(red), argmapper.Converter(provider))
+	if p != nil {
+		t.Fatalf("panic: %v", p)
+	}
+	if res.Err() != nil {
+		t.Fatalf("the redefined function was given its only declared input (r, of exactly the declared type) and failed: %v", res.Err())
+	}
+	if res.Out(0).(string) != "x!" {
+		t.Fatalf("got %v", res.Out(0))
+	}
+}
